@@ -1,6 +1,16 @@
 import MJ.Proofs.EvalFrame
+import MJ.Proofs.StmtSim
+import MJ.Proofs.C03Tables
 /-!
 # C03 — core constructs render according to the documented semantics
+
+Stage 3 (partial): `vm_refines_eval_partial` — the model VM running the code of the model code
+generator refines the reference semantics on the fragment `Fragment` (text, `{{ e }}`, `set x = e`,
+`if`/`elif`/`else`; expressions with constant folding, short-circuit `and`/`or`, conditional
+expressions, filters, tests, attribute/item access, list and map literals; no chained comparison,
+no call).  `C03_full` states the theorem for everything the model generator compiles (loops,
+`with`, captures, `break`/`continue`, …); beyond the fragment it is *checked* on every generated
+program (model VM vs. `exec` vs. the engine) but not yet proved.
 
 Stage 1: laws of the reference semantics `MJ.Eval.exec` (`MJ/Model/Eval.lean`).  Each law is an
 unbounded theorem (all programs / bodies / lists / states / fuel values) and is followed by an
@@ -263,6 +273,45 @@ theorem iteration_scope (n : Nat) (ctx : Scope) (stack : List Nat) (σ : State) 
     | ok r => obtain ⟨σ2, fl⟩ := r; cases fl <;> rfl
 
 
+/-! ## Refinement: compiled code on the VM vs. the reference semantics -/
+
+/-- The full statement: for every template the model code generator compiles (everything but
+macros, call blocks and calls) and every context, the model VM on the generated code renders what
+the reference semantics renders. -/
+def C03_full : Prop :=
+  ∀ (prog : List Stmt) (ctx : Scope) (code : List MJ.Compile.Instr) (fuel : Nat) (out : String),
+    MJ.Compile.compileTemplate prog = some code → renderTemplate fuel ctx prog = .ok out →
+    ∃ k, ∀ j, MJ.Vm.renderCode (k + j) ctx code = .ok out
+
+/-- the proved part: templates of `MJ.Vm.Fragment` -/
+theorem vm_refines_eval_partial (prog : List Stmt) (hfrag : MJ.Vm.Fragment prog) (ctx : Scope)
+    (code : List MJ.Compile.Instr) (hcode : MJ.Compile.compileTemplate prog = some code) (fuel : Nat)
+    (out : String) (hev : renderTemplate fuel ctx prog = .ok out) :
+    ∃ k, ∀ j, MJ.Vm.renderCode (k + j) ctx code = .ok out :=
+  MJ.Vm.vm_refines_eval_partial prog hfrag ctx code hcode fuel out hev
+
+/-- expressions: the code the back-patching generator appends for `e` makes the VM push the value
+of `e` (constant folding, short-circuit `and` / `or`, `if` expressions, filters, tests, …) -/
+theorem compileExpr_correct {n e ctx heap stack v} (hev : evalExpr n ctx heap stack e = .ok v)
+    (hs : MJ.Compile.simpleExpr e = true) (g : MJ.Compile.CG) (post : List MJ.Compile.Instr)
+    (hoof : (MJ.Compile.cExpr e g).oof = false) {s : MJ.Vm.VmState} (hpc : s.pc = g.next)
+    (henv : MJ.Vm.EnvRel ctx heap stack s.frames) :
+    MJ.Vm.Reach ctx ((MJ.Compile.cExpr e g).code ++ post) s
+      { s with pc := (MJ.Compile.cExpr e g).next, stack := v :: s.stack } :=
+  MJ.Vm.compileExpr_correct hev hs g post hoof hpc henv
+
+/-- constant folding (`Expr::as_const`) never changes a value -/
+theorem asConst_sound {e : Expr} {v : Val} (h : MJ.Compile.asConst e = .val v) (n : Nat) (ctx : Scope)
+    (heap : Heap) (stack : List Nat) :
+    evalExpr n ctx heap stack e = .ok v ∨ evalExpr n ctx heap stack e = .error .fuel :=
+  MJ.Compile.asConst_sound h n ctx heap stack
+
+/-- the back-patching generator (absolute targets patched through `pending`) emits exactly the
+structured code with resolved targets -/
+theorem codegen_eq_structured (prog : List Stmt) (h : MJ.Compile.simpleBlock prog = true) (g : MJ.Compile.CG) :
+    MJ.Compile.cBlock prog g = g.extend (MJ.Compile.relBlock prog g.next g.aux) :=
+  MJ.Compile.cBlock_eq_rel prog g h
+
 /-! ## Non-vacuity: concrete instances, evaluated by the kernel -/
 
 section Examples
@@ -318,6 +367,22 @@ example : ∃ σ', exec 6 [] [0] { heap := [[]], out := "" }
       (.ifS (.const (.bool true)) [.set (.var "x") (ci 3)] []) = .ok (σ', .normal) ∧
     lookup [] σ'.heap [0] "x" = some (.int 3) ∧ σ'.out = "" :=
   set_in_if_persists (m := 2) (cv := .bool true) (by rfl) (by rfl) (by rfl) (by decide)
+
+/-- a template of the fragment with short-circuit operators, constant folding, an `if` expression
+and `elif`: hypotheses of `vm_refines_eval_partial` hold, and the VM indeed renders the same -/
+private def fragProg : List Stmt :=
+  [.set (.var "x") (.binop .add (ci 2) (ci 3)),
+   .ifS (.binop .and (.var "x") (.binop .gt (.var "x") (ci 9))) [.text "big"]
+     [.ifS (.binop .or (.var "nope") (.var "x")) [.emit (.ife (.var "x") (.filter "upper" (.const (.str "ok")) []) none)] [.text "no"]],
+   .emit (.list [.var "x", .getattr (.var "m") "k"])]
+
+example : MJ.Compile.simpleBlock fragProg = true := by decide +kernel
+example : (MJ.Compile.compileTemplate fragProg).isSome = true := by decide +kernel
+example : (renderTemplate defaultFuel [("m", .map [("k", .str "v")])] fragProg).toOption = some "OK[5, 'v']" := by
+  decide +kernel
+example : ((MJ.Compile.compileTemplate fragProg).bind fun code =>
+    (MJ.Vm.renderCode 1000 [("m", .map [("k", .str "v")])] code).toOption) = some "OK[5, 'v']" := by
+  decide +kernel
 
 end Examples
 
